@@ -602,8 +602,10 @@ func (ex *Exec) violation(label, msg string, cond *Term) bool {
 func (ex *Exec) assertTerm(label string, c *Term, kind string) {
 	if c.IsTrue() {
 		ex.asserted[label]++
+		ex.counters["assertions-decided-by-normalisation"]++
 		return
 	}
+	ex.counters["assertions-decided-by-solver"]++
 	// a label that already produced a counterexample in this run is not re-examined:
 	// one model per label is what gets replayed and reported
 	if _, dup := ex.foundLabels.Load(label); dup {
